@@ -328,6 +328,11 @@ def fs_hook(vfs: VFS):
             return NotImplemented
         if isinstance(f, tuple) and f and f[0] == "pathm":
             return path_method(it, f[1], f[2], args, kwargs, node)
+        if isinstance(f, tuple) and f and f[0] == "external" and args and isinstance(args[0], PathV):
+            # the unbound form Path.write_text(p, text), Path.exists(p) ...: the method of the path handed first
+            nm_ = f[1].replace(":", ".").split(".")
+            if len(nm_) >= 2 and nm_[-2] in ("Path", "PurePath", "PosixPath", "PurePosixPath") and nm_[-1] in PATH_METHODS:
+                return path_method(it, args[0], nm_[-1], list(args[1:]), kwargs, node)
         if isinstance(f, tuple) and f and f[0] == "external":
             name = f[1].replace(":", ".")
             base = name.split(".")[-1]
